@@ -244,8 +244,11 @@ def run_case(args):
     return res
 
 
-def _raised_in_model(where):
-    """innermost frame of an exception lies in the symbolic model (or in the rational arithmetic it calls), not in the analysed source"""
+def _raised_in_model(where, exc=None):
+    """innermost frame of an exception lies in the symbolic model (or in the rational arithmetic it calls), not in the analysed source;
+    or a TypeError that names the model's own classes (an operation the term classes do not support)"""
+    if exc and exc.startswith('TypeError') and any(k in exc for k in ("'S'", "'B'", "symnp", "Fraction")):
+        return True
     if not where:
         return False
     return where[-1].split(':')[0] in ('nd.py', 'ndx.py', 'core.py', 'hapi.py', 'loader.py', 'fractions.py', 'fp.py')
@@ -486,7 +489,7 @@ def main(argv=None):
             if not cand.get('confirmed') and (r['case'].get('probe') or cand.get('from_unknown')):
                 probes_ok += 1          # a solver-produced float64 probe input that the real package handles correctly
                 continue
-            if not cand.get('confirmed') and cand['kind'] == 'exc' and _raised_in_model(cand.get('where')):
+            if not cand.get('confirmed') and cand['kind'] == 'exc' and _raised_in_model(cand.get('where'), cand.get('exc')):
                 # an exception raised by the model itself (not by the analysed code) that the real package does not raise: the path was not encoded
                 shim_exc.append('%s at %s' % (cand.get('exc'), (cand.get('where') or ['?'])[-1]))
                 continue
